@@ -112,12 +112,16 @@ enum { V_AMBIG = 0, V_INTERIOR = 1, V_OVERLAP = 2, V_DISJOINT = 3 };
 static int64_t n_interior, n_overlap, n_disjoint, n_ambig;
 
 /* classify one cell against the polygon */
+static ld g_mfac = 1;
 static int classify(const vf_poly *P, const polyseg *S, H3Index h, int res, ld w, char *why, size_t wl) {
     vf_cell c;
     why[0] = 0;
     if (vf_cell_load(h, &c)) return V_AMBIG;
     (void)res;
-    ld delta = 0.02L * w, dprime = 0.005L * w, md;
+    /* margins: 2 % / 0.5 % of the cell width; for the corner-hugging polygons at res >= 4 (whose whole point is the sub-per-cent
+     * neighbourhood of a cell corner) 0.08 % / 0.02 % — every verdict still needs the planar and the great-circle reading of
+     * the cell edges to agree, so a tighter margin only turns fewer cells into "ambiguous" */
+    ld delta = 0.02L * g_mfac * w, dprime = 0.005L * g_mfac * w, md;
     int cside = vf_poly_side(P, c.cg, dprime, &md);
     /* planar radius of the cell incl. great-circle bulge */
     P2 cp = unroll(c.cg, S->mid);
@@ -194,7 +198,7 @@ static int classify(const vf_poly *P, const polyseg *S, H3Index h, int res, ld w
         }
     }
     if (all_in && !poly_vert_in_any && dP > delta && dG > delta) {
-        snprintf(why, wl, "centre, vertices and 8 great-circle sub-points per edge inside by > 2%% of the cell width, no polygon vertex in the cell");
+        snprintf(why, wl, "centre, vertices and 8 great-circle sub-points per edge inside by > %.3Lg%% of the cell width, no polygon vertex in the cell", 2 * g_mfac);
         return V_INTERIOR;
     }
     if (cside > 0) {
@@ -202,11 +206,11 @@ static int classify(const vf_poly *P, const polyseg *S, H3Index h, int res, ld w
         return V_OVERLAP;
     }
     if (cell_vert_in) {
-        snprintf(why, wl, "a cell vertex inside the polygon by > 0.5%% of the cell width");
+        snprintf(why, wl, "a cell vertex inside the polygon by > %.3Lg%% of the cell width", 0.5L * g_mfac);
         return V_OVERLAP;
     }
     if (poly_vert_in_both) {
-        snprintf(why, wl, "a polygon vertex inside the cell by latLngToCell and by the planar test (> 0.5%% margin)");
+        snprintf(why, wl, "a polygon vertex inside the cell by latLngToCell and by the planar test (> %.3Lg%% margin)", 0.5L * g_mfac);
         return V_OVERLAP;
     }
     if (crossP == 2 && crossG == 2) {
@@ -265,6 +269,7 @@ static void case_poly(uint64_t seed) {
         vf_add("generator.rejected", 1);
         return;
     }
+    g_mfac = (strstr(desc, "hugging") && res >= 4) ? 0.04L : 1;
     if (!VF_GUARD()) {
         vf_assert_report("polygonToCellsExperimental", key);
         VF_UNGUARD();
@@ -448,6 +453,7 @@ static void case_poly(uint64_t seed) {
     if (P.nholes) vf_add("polygons.with_holes", 1);
     if (strstr(desc, "axis-aligned")) vf_add("polygons.axis_aligned", 1);
     if (strstr(desc, "snapped")) vf_add("polygons.vertices_snapped_to_centre_coordinates", 1);
+    if (strstr(desc, "hugging")) vf_add("polygons.hugging_cell_corners", 1);
     vf_sample("poly %016" PRIx64 " (%s): FULL %" PRId64 " <= CENTER %" PRId64 " <= OVERLAPPING %" PRId64 " <= BBOX %" PRId64 " cells; bounds %" PRId64 "/%" PRId64 "/%" PRId64 "/%" PRId64, seed, desc, out[1].n, out[0].n, out[2].n, out[3].n, sz[1], sz[0], sz[2], sz[3]);
 done:
     for (int m = 0; m < 4; m++) free(out[m].a);
@@ -489,6 +495,10 @@ static void run(void) {
         }
     int n = VF_T(1500, 25000);
     for (int i = 0; i < n; i++) case_poly(vf_u64(&r));
+    /* a dedicated share of the special shapes whose seeds end in binary 1110: small ones hug cell corners, large ones have
+     * their vertices snapped to cell-centre coordinates (vf_poly_case) */
+    int n2 = VF_T(1500, 12000);
+    for (int i = 0; i < n2; i++) case_poly((vf_u64(&r) & ~0xFULL) | 0xE);
     vf_add("polygons", n_poly);
     vf_add("cells.definitely_interior", n_interior);
     vf_add("cells.definitely_overlapping", n_overlap);
